@@ -237,6 +237,15 @@ func (c *Ctx) NonTrivial(sig string) {
 	c.mu.Unlock()
 }
 
+// Unit counts one more execution inside the open case (an input tried, a transaction played) for
+// checks whose cases consist of several independently judged units; it keeps the evidence's
+// "evaluations" at least as fine-grained as the non-trivial signatures.
+func (c *Ctx) Unit() {
+	c.mu.Lock()
+	c.res.Evaluations++
+	c.mu.Unlock()
+}
+
 // Count adds to a named counter.
 func (c *Ctx) Count(name string, n int64) {
 	c.mu.Lock()
